@@ -244,7 +244,11 @@ static void restrict_case(unsigned long set, unsigned long flags)
       else if (A.type[k] == HWLOC_OBJ_MISC) VP_CHECK(still == ((flags & HWLOC_RESTRICT_FLAG_ADAPT_MISC) != 0), "restrict: Misc children of a removed object are dropped, or re-attached with ADAPT_MISC");
       else VP_CHECK(still == ((flags & HWLOC_RESTRICT_FLAG_ADAPT_IO) != 0), "restrict: I/O children of a removed object are dropped, or re-attached with ADAPT_IO");
       if (still && removed_anc) { int bi = snap_find(&B, A.gp[k]); uint64_t np = B.parent_gp[bi]; int hop2 = 0, is_anc = 0; uint64_t g = A.parent_gp[k];
-        while (hop2++ < 8) { if (g == np) { is_anc = 1; break; } int pk = snap_find(&A, g); if (pk < 0) break; g = A.parent_gp[pk]; }
+        int nb = snap_find(&B, np);
+        while (hop2++ < 8) { if (g == np) { is_anc = 1; break; } int pk = snap_find(&A, g); if (pk < 0) break;
+          /* an ancestor Group that was merged away because its level became redundant is replaced by the object that now covers its CPUs */
+          if (snap_find(&B, g) < 0 && A.type[pk] == HWLOC_OBJ_GROUP && (A.c[pk] & ~dropc) != 0 && nb >= 0 && B.c[nb] == (A.c[pk] & ~dropc)) { is_anc = 1; break; }
+          g = A.parent_gp[pk]; }
         if (A.type[k] == HWLOC_OBJ_MISC || A.type[k] == HWLOC_OBJ_BRIDGE) VP_CHECK(is_anc, "restrict: an adopted Misc/I/O subtree hangs below a surviving ancestor of its old parent"); }
     }
   }
